@@ -105,7 +105,12 @@ func c09Gen(rt *rapid.T) wProg {
 			if strings.HasPrefix(what, "kp") && gPct(rt, 80) {
 				seq = 0
 			}
-			p.Ops = append(p.Ops, wOp{K: "note", S: s, T: topicFor(s), A: what, N: seq})
+			nop := wOp{K: "note", S: s, T: topicFor(s), A: what, N: seq}
+			if gPct(rt, 7) {
+				// a name which cannot be resolved: an ill-formed user id, the sender's own id
+				nop.T = gPick(rt, []string{"raw:usr", "raw:usr!!!", "raw:usrAAAAAAAAAAA", fmt.Sprintf("p%d", p.Sess[s])}, "badname")
+			}
+			p.Ops = append(p.Ops, nop)
 		case x < 68:
 			p.Ops = append(p.Ops, wOp{K: "pub", S: s, T: topicFor(s)})
 		case x < 70:
@@ -191,6 +196,7 @@ type c09Obs struct {
 	validKinds map[string]map[string]bool
 	invalid    int
 	relayed    int
+	badName    int // notes addressed to names which cannot be resolved
 }
 
 func (o *c09Obs) Before(w *wWorld, op *wOp) {
@@ -311,6 +317,20 @@ func (o *c09Obs) After(w *wWorld, st *wStep) *kit.Viol {
 	}
 	if st.Op.K != "note" || st.Skipped || st.User < 0 {
 		return nil
+	}
+	// ---- a note whose topic name cannot be resolved (ill-formed user id, the sender's own id):
+	// nothing to attach to, so the 409 of the pinned test does not apply: dropped without any reply
+	if strings.HasPrefix(st.Name, "usr") {
+		if peer := types.ParseUserId(st.Name); peer.IsZero() || peer == w.users[st.User].uid {
+			o.invalid++
+			o.badName++
+			for sess, frames := range st.Frames {
+				for _, f := range frames {
+					return kit.V("unresolvable-note-answered", "note %s names a topic which cannot exist (%q); it must be dropped silently but session %d received %s", st.Req, st.Name, sess, wJSON(f))
+				}
+			}
+			return nil
+		}
 	}
 	// ---- the note itself
 	uid := w.users[st.User].uid
@@ -491,6 +511,9 @@ func c09Exec(t *testing.T, r *kit.Run) func(wProg) kit.Outcome {
 		}
 		if two {
 			o.Classes = append(o.Classes, "two-valid-notes")
+		}
+		if obs.badName > 0 {
+			o.Classes = append(o.Classes, "note-to-unresolvable-name")
 		}
 		if fail != "" && res.Viol == nil {
 			o.Skip = true
